@@ -343,13 +343,14 @@ Qed.
 
 Lemma agree_oc_state cfg t i key b b' c c' ds :
   c = b_cache b -> c' = b_cache b' -> Pn i -> agree b b' ->
-  agree (oc_state i key b (fst (oc_pair H cfg t key c ds)) (snd (oc_pair H cfg t key c ds)))
-        (oc_state i key b' (fst (oc_pair H cfg t key c' ds)) (snd (oc_pair H cfg t key c' ds))).
+  agree (oc_state cfg i key b (fst (oc_pair H cfg t key c ds)) (snd (oc_pair H cfg t key c ds)))
+        (oc_state cfg i key b' (fst (oc_pair H cfg t key c' ds)) (snd (oc_pair H cfg t key c' ds))).
 Proof.
   intros -> -> Hi Ha. rewrite (oc_pair_fst_indep H cfg t key (b_cache b') (b_cache b) ds).
   unfold oc_state. rewrite !get_rt_set_cache, (ag_rt _ _ Ha i Hi). apply agree_set_rt.
   destruct Ha as [A1 A2 A3 A4 A5 A6 A7 A8]. constructor; auto.
-  - cbn [b_cache set_cache c_results]. intros k Hk. rewrite !rlookup_results_set.
+  - cbn [b_cache set_cache c_results]. intros k Hk. destruct (cfg_cache cfg); [|apply A7, Hk].
+    rewrite !rlookup_results_set.
     destruct (str_eqb key k); [reflexivity | apply A7, Hk].
   - cbn [b_cache set_cache c_cas]. intros d Hd. rewrite !oc_pair_cas_ext, (A8 d Hd). reflexivity.
 Qed.
@@ -688,11 +689,13 @@ Proof.
   cbn. intros l Hl. apply Build_single_proofs.label_in_remove_other. exact Hl.
 Qed.
 
-Lemma gframe_oc_state i t (K : str -> Prop) key b res cas : K key -> gframe i t K b (oc_state i key b res cas).
+Lemma gframe_oc_state cfg i t (K : str -> Prop) key b res cas :
+  K key -> gframe i t K b (oc_state cfg i key b res cas).
 Proof.
   intro Hk. unfold oc_state. constructor; autorewrite with bst; auto.
   - intros j Hj. rewrite get_rt_set_rt_other by auto. reflexivity.
-  - cbn [b_cache set_cache c_results]. intros k Hnk. apply rlookup_set_other. intro E. subst. auto.
+  - cbn [b_cache set_cache c_results]. intros k Hnk. destruct (cfg_cache cfg); [|reflexivity].
+    apply rlookup_set_other. intro E. subst. auto.
 Qed.
 
 Lemma exec_ran_frame s t b w1 :
